@@ -64,7 +64,14 @@ def replay(rec, expected_by_prefix):
                 present[op['app']].remove(op['model'])
                 evolutions[op['app']].append({'label': 'del_%s' % op['model'].lower(),
                                               'mutations_src': ['DeleteModel(%r)' % op['model']]})
-            if op['op'] in ('uninstall', 'dropmodel'):
+            elif op['op'] == 'dropall':
+                # referrers first: A before B, F before C
+                for m in list(ALL_MODELS[op['app']]) if op['app'] != 'r' else ['F', 'C']:
+                    if m in present[op['app']]:
+                        present[op['app']].remove(m)
+                        evolutions[op['app']].append({'label': 'del_%s' % m.lower(),
+                                                      'mutations_src': ['DeleteModel(%r)' % m]})
+            if op['op'] in ('uninstall', 'dropmodel', 'dropall'):
                 p_inst = 'p' in installed
                 if not p_inst and 'r' in installed and 'F' in present['r'] and not refs_dropped \
                         and feats & {'crossFK', 'crossM2M'}:
